@@ -342,6 +342,37 @@ def _noop(it, *a, **k):
     return None
 
 
+def _reduce(it, fn, src, *init):
+    if isinstance(src, lib.GenExp):
+        src = lib.consume_comp(it, src, 'list')
+    if isinstance(src, lib.CompSeq):
+        if init:
+            raise Unsupported('reduce with initial value over symbolic sequence')
+        if not it.branch(lib._comp_count(it, src) > 0):
+            it.raise_('TypeError', 'reduce() of empty sequence with no initial value')
+        x, y = it.fresh('rx', Cell), it.fresh('ry', Cell)
+        it.term_mode += 1
+        it.guards.append([])
+        try:
+            body = it.cell_of(it.call(fn, [SV(x), SV(y)]))
+        finally:
+            it.term_mode -= 1
+            it.guards.pop()
+        # canonical placeholders for the two lambda parameters
+        body = z3.substitute(body, (x, z3.Const('__rx', Cell)), (y, z3.Const('__ry', Cell)))
+        return it.uncell(lib._comp_fold(it, 'REDUCE', src, extra=[body]))
+    kind, items = lib.iterate(it, src)
+    if kind != 'concrete':
+        raise Unsupported('reduce over symbolic iterable')
+    items = list(init) + list(items)
+    if not items:
+        it.raise_('TypeError', 'reduce() of empty sequence with no initial value')
+    cur = items[0]
+    for v in items[1:]:
+        cur = it.call(fn, [cur, v])
+    return cur
+
+
 def external_module(it, dotted):
     m = ModuleV(dotted)
     a = m.attrs
@@ -369,6 +400,9 @@ def external_module(it, dotted):
         a['Iterable'] = T('Iterable')
     elif dotted == 'itertools':
         a.update(chain=Builtin('itertools.chain', _chain), islice=Builtin('itertools.islice', _islice))
+    elif dotted == 'functools':
+        a['reduce'] = Builtin('functools.reduce', _reduce)
+        a['partial'] = Builtin('functools.partial', lambda it, *x, **k: lib._unsup('functools.partial'))
     elif dotted == 'logging':
         for n in ('error', 'info', 'warning', 'exception', 'debug'):
             a[n] = Builtin('logging.' + n, _noop)
